@@ -37,7 +37,6 @@ struct inputs {
   uint8_t block[MMAX + 2];
   uint8_t buf[LEN + 1];
   unsigned probe;              /* symbolic index for comparing the 256-entry symbol map */
-  unsigned cmap_probe;         /* pre-state value of cmap[probe] (0/1) */
   unsigned cut;
 };
 DECLARE_INPUTS
@@ -46,9 +45,10 @@ DECLARE_INPUTS
 
 /* CRC-32/BZIP2 update.  Table-driven with the real crc_table; lemma crc_table (h_crc.c) proves the
    table equals the bitwise definition, which keeps this query free of 8-round xor chains. */
-static uint32_t ref_crc_byte(uint32_t crc, uint8_t x)
+static uint32_t ref_crc_byte(uint32_t crc, unsigned x)   /* same expression shape as encode.c's CRC() */
 {
-  return (crc << 8) ^ crc_table[(crc >> 24) ^ x];
+  crc = (crc << 8) ^ crc_table[(crc >> 24) ^ (x)];
+  return crc;
 }
 
 struct ref {
@@ -129,15 +129,21 @@ static void make_encoder(void)
   E->rle_state = IN.rle_state;
   E->rle_character = IN.rle_character & 0xFF;
   E->block_crc = IN.crc;
-  E->cmap[IN.probe] = (IN.cmap_probe & 1u) != 0;
+  /* Block pre-content: tied to IN.block WITHOUT writing at a symbolic offset (a symbolic-offset write
+     into the encoder object would stop symex from constant-folding later reads of its fields):
+     malloc'ed memory is nondeterministic for CBMC, so assuming equality is equivalent to writing. */
+#ifdef REPLAY
   for (i = 0; i < MMAX; i++) Eblock[i] = IN.block[i];
+#else
+  for (i = 0; i < MMAX; i++) ASSUME(Eblock[i] == IN.block[i]);
+#endif
 }
 
 static void make_ref(struct ref *R)
 {
   unsigned i;
   R->M = CAP; R->n = IN.nblock; R->r = (unsigned)IN.rle_state; R->c = IN.rle_character & 0xFF;
-  R->crc = IN.crc; R->probe_set = (IN.cmap_probe & 1u) != 0; R->full = false;
+  R->crc = IN.crc; R->probe_set = false; R->full = false;   /* symbol map starts empty (collect never reads it) */
   for (i = 0; i < MMAX + 2; i++) R->block[i] = IN.block[i];
 }
 
@@ -164,6 +170,9 @@ void h_collect_step(void)
 {
   LOAD_INPUTS();
   struct ref R;
+#ifdef ALPHA                        /* restrict input bytes to a small alphabet (long-buffer queries) */
+  { unsigned k; for (k = 0; k < LEN; k++) ASSUME(IN.buf[k] < ALPHA); }
+#endif
   make_encoder();
   make_ref(&R);
   size_t sz = LEN;
@@ -185,6 +194,81 @@ void h_collect_step(void)
 #endif
   compare(&R, rv, consumed, cr);
 }
+
+/* In-line fast path of collect() on longer buffers.  The byte-equality pattern ("shape") of the
+   buffer is enumerated inside the harness (all 2^(LEN-1) shapes, concrete bytes: each run gets the
+   next byte value), so symex folds every byte comparison and forks only on the capacity checks;
+   capacity M, fill level nblock, CRC and block contents stay symbolic and are decided by the solver.
+   Start state: no pending run (the in-line path is entered through state 0 whatever happened
+   before; the resumed paths are covered by h_collect_step from arbitrary pre-states). */
+#ifdef INLINE_SHAPES
+#ifndef SHAPE
+#error "SHAPE (bit mask of the byte-equality pattern) must be defined"
+#endif
+void h_collect_inline(void)
+{
+  LOAD_INPUTS();
+  struct ref R;
+  uint8_t buf[LEN + 1];
+  unsigned shape = SHAPE, k;
+  uint8_t v = 0;
+  ASSUME(IN.rle_state == 0);
+  buf[0] = v;
+  for (k = 1; k < LEN; k++) {
+    if (!((shape >> (k - 1)) & 1u)) v++;      /* bit clear: a new run starts at byte k */
+    buf[k] = v;
+  }
+  make_encoder();
+  E->rle_state = 0;                             /* concrete, so the entry test folds */
+  E->block_crc = 0xFFFFFFFFu;                   /* concrete start value: with concrete bytes the CRC folds per path
+                                                   (arbitrary start values are covered by h_collect_step) */
+  make_ref(&R);
+  R.crc = 0xFFFFFFFFu;
+  size_t sz = LEN;
+  int rv = collect(E, buf, &sz);
+  unsigned cr = ref_collect(&R, buf, LEN);
+  if (R.full && cr < LEN) WITNESS("inline_block_fills_mid_buffer");
+  if (!R.full) WITNESS("inline_buffer_fits");
+  compare(&R, rv, (unsigned)(LEN - sz), cr);
+}
+#endif
+
+/* A run crossing the 259 limit inside ONE call (in-line run loop): RUNLEN equal bytes, then one
+   different byte, from a fresh state with ample room (nblock + 12 <= M, so no capacity branch is
+   taken: capacity handling is the subject of the other obligations).  Bytes and CRC start value are
+   concrete, fill level and capacity symbolic. */
+#ifdef RUNLEN
+void h_collect_longrun(void)
+{
+  LOAD_INPUTS();
+  struct ref R;
+  static uint8_t buf[RUNLEN + 2];
+  unsigned k, i;
+  ASSUME(IN.rle_state == 0);
+  for (k = 0; k < RUNLEN; k++) buf[k] = 7;
+  buf[RUNLEN] = 9;
+  make_encoder();
+  ASSUME(IN.nblock + 12 <= CAP);
+  E->rle_state = 0;
+  E->block_crc = 0xFFFFFFFFu;
+  make_ref(&R);
+  R.crc = 0xFFFFFFFFu; R.r = 0;
+  size_t sz = RUNLEN + 1;
+  int rv = collect(E, buf, &sz);
+  /* byte-wise reference; no capacity branch because of the ample-room assumption */
+  for (i = 0; i < RUNLEN + 1; i++) {
+    uint8_t x = buf[i];
+    if (R.r >= 4 && x != R.c) { ref_put(&R, (uint8_t)(R.r - 4), true); R.r = 0; }
+    R.crc = ref_crc_byte(R.crc, x);
+    if (R.r >= 4) { R.r++; if (R.r == 259) { ref_put(&R, 255, true); R.r = 0; } }
+    else if (R.r >= 1 && x == R.c) { ref_put(&R, x, false); R.r++; }
+    else { ref_put(&R, x, true); R.r = 1; R.c = x; }
+  }
+  R.full = (R.n == R.M);
+  WITNESS("long_run_in_one_call");
+  compare(&R, rv, (unsigned)(RUNLEN + 1 - sz), RUNLEN + 1);
+}
+#endif
 
 #if LEN >= 2
 void h_collect_split(void)
